@@ -188,6 +188,12 @@ func (m *stateMachineViewManager) HeightCommittedChan() (height uint64, ch chan<
 	return m.roundEntrance.H, m.roundEntrance.HeightCommitted
 }
 
+// ClearHeightCommittedChan drops the height committed channel of the current round entrance,
+// after the kernel has closed it.
+func (m *stateMachineViewManager) ClearHeightCommittedChan() {
+	m.roundEntrance.HeightCommitted = nil
+}
+
 // stateMachineOutput contains a channel and a value to send.
 // This value should only be created through the [stateMachineViewManager.Output] method.
 //
